@@ -779,6 +779,10 @@ func cmdGen(args []string) {
 			small = true
 		}
 	}
+	if kind == "files" || kind == "cmds" {
+		cmdGenWorld(kind, n, seed, out)
+		return
+	}
 	cases := []N{}
 	for i := 0; i < n; i++ {
 		r := rand.New(rand.NewSource(seed*1000003 + int64(i)*7919 + int64(len(kind))))
